@@ -250,9 +250,22 @@ R.add('L1.4', l14, [{}],
               'the genuine challenge response still completes the handshake (connect event for A)'],
       bounds='one forged datagram (free header fields, <= 5 arbitrary body bytes, or a hello-typed datagram with 3 arbitrary message bytes); 8 loop ticks')
 
+# ------------------------------------------------------------------ L1.5 a real hello does not open the door for its neighbours
+# keyless server-side connection, one clear-text datagram with two inner messages, the *real* hello handler (which installs
+# the session key while the datagram is still being processed): whatever travels next to the hello is not processed.
+# Same harness as C02 L2.4.
+from . import c02 as _c02  # noqa: E402
+
+R.add('L1.5', _c02.l24, [dict(count=2)],
+      desc='keyless server-side connection, clear-text datagram with two inner messages (real hello handler): no application '
+           'message, no fragment, no promotion from what travels next to the hello',
+      expect=['nothing that travels in a clear-text datagram next to a hello reaches the application'],
+      bounds='2 inner messages of any of 7 types; hello of any protocol version / challenge with any token / junk <= 3 bytes')
+
 import sys as _sys  # noqa: E402
 from . import loop as _loop, c11 as _c11  # noqa: E402
 R.lemmas['L1.4'].replay = generic_replay(l14, [proto, _loop, _c11, _sys.modules[__name__]], patches=_c11.LOOPPATCH)
+R.lemmas['L1.5'].replay = generic_replay(_c02.l24, [proto, _c02, _sys.modules[__name__]])
 for _l in R.lemmas.values():
     if _l.replay is None:
         _l.replay = generic_replay(_l.func, [proto, _sys.modules[__name__]])
